@@ -45,6 +45,7 @@ pub fn prop() -> Prop {
         "Float positions accept any JSON number in the shape check; the execution step then applies apollo's result coercion (float-typed numbers only)",
         "list lengths are not checked against the configured bounds (not part of the property statement); they are classified",
         "ResponseBuilder returning Err is not a generated response: counted (class build-error), not failed",
+        "ResponseBuilder has no size limit, so the configured maximum list size is lowered until the worst-case response of the operation has at most 20000 values",
         "cases where the reference executor over the served data raises field errors of its own (argument coercion: an explicit null variable for a non-null argument) are skipped for the execution step",
     ])
 }
@@ -285,11 +286,53 @@ fn list_lengths(v: &Json, out: &mut Vec<usize>) {
 
 // ------------------------------------------------------------------------------------------------
 
+/// Upper bound on the number of values a response to `sels` can hold when every list has
+/// `max_len` items (fragments expanded, type conditions ignored, merged fields counted twice).
+fn worst_size(s: &RefSchema, doc: &Document, sels: &[Selection], parent: &str, max_len: usize, guard: usize) -> f64 {
+    if guard > 24 {
+        return 1.0;
+    }
+    let mut total = 0.0;
+    for sel in sels {
+        total += match sel {
+            Selection::Field(f) => match s.field(parent, &f.name) {
+                Some(def) => {
+                    let mult = (max_len.max(1) as f64).powi(def.ty.depth() as i32);
+                    mult * (1.0 + worst_size(s, doc, &f.selection_set, def.ty.inner_name(), max_len, guard + 1))
+                }
+                None => 1.0,
+            },
+            Selection::Inline(i) => worst_size(s, doc, &i.selection_set, i.type_condition.as_deref().unwrap_or(parent), max_len, guard + 1),
+            Selection::Spread(sp) => doc
+                .defs
+                .iter()
+                .find_map(|d| match d {
+                    Definition::Fragment(fr) if fr.name == sp.name => Some(worst_size(s, doc, &fr.selection_set, &fr.type_condition, max_len, guard + 1)),
+                    _ => None,
+                })
+                .unwrap_or(0.0),
+        };
+    }
+    total
+}
+
+/// ResponseBuilder has no size limit: keep the worst-case response small by lowering the list
+/// bounds of the configuration for operations that nest many lists.
+fn bound_lists(case: &Case, cfg: &mut Config) {
+    let op = case.operation();
+    let root = case.schema.root(op.op).unwrap_or("Query").to_string();
+    while cfg.max_len > 1 && worst_size(&case.schema, &case.op_doc, &op.selection_set, &root, cfg.max_len, 0) > 20_000.0 {
+        cfg.max_len -= 1;
+        cfg.min_len = cfg.min_len.min(cfg.max_len);
+    }
+}
+
 pub fn check(bytes: &[u8], ctx: &mut Ctx) -> Outcome {
     let (cb, rb) = exec_ops::split_world_bytes(bytes);
     let case = exec_ops::case(&cb, &opts(ctx.tier));
     let mut c = Choices::new(&rb);
-    let cfg = config(&mut c);
+    let mut cfg = config(&mut c);
+    bound_lists(&case, &mut cfg);
     evaluate(&case, &cfg, ctx)
 }
 
